@@ -19,7 +19,14 @@ class Ctx:
         self.tier = tier
         self.seed = seed
         self.t0 = time.time()
-        self.work = os.path.join(C.WORK, "run", pid)
+        # one scratch dir per process, so that two runs of the same check never wipe each other's files
+        rundir = os.path.join(C.WORK, "run")
+        os.makedirs(rundir, exist_ok=True)
+        for d in os.listdir(rundir):        # leftovers of runs whose process is gone
+            m = re.match(r"^%s\.(\d+)$" % re.escape(pid), d)
+            if (m and not os.path.exists("/proc/%s" % m.group(1))) or d == pid:
+                shutil.rmtree(os.path.join(rundir, d), ignore_errors=True)
+        self.work = os.path.join(rundir, "%s.%d" % (pid, os.getpid()))
         shutil.rmtree(self.work, ignore_errors=True)
         os.makedirs(self.work, exist_ok=True)
         self.violations = []      # dicts: signature, what, replay, concrete
